@@ -211,11 +211,11 @@ func init() {
 			New: "\ts.cleanupBindings(0)\n\ts.trail = s.trail[:0]\n\tflags := make([]bool, s.nbVars)\n\ts.assumptions = flags\n", Expect: ""},
 		// D7 and its relatives (the defect fixed by 2c53459 must be reported again if it returns)
 		seed{Prop: "C10", Name: "d7-facts-not-reinstalled", File: "solver/solver.go",
-			Old: "\tfor _, lit := range s.facts { // Unit clauses are not assumptions: they hold in every round\n\t\ts.model[lit.Var()] = lvlToSignedLvl(lit, 1)\n\t\ts.trail = append(s.trail, lit)\n\t}\n", New: "", Expect: "R10.4"},
+			Old: "\tfor _, lit := range s.facts { // Unit clauses are not assumptions: they hold in every round\n\t\tif s.litStatus(lit) == Unsat { // Two unit clauses contradict each other\n\t\t\ts.status = Unsat\n\t\t\treturn s.status\n\t\t}\n\t\ts.model[lit.Var()] = lvlToSignedLvl(lit, 1)\n\t\ts.trail = append(s.trail, lit)\n\t}\n", New: "", Expect: "R10.4"},
 		seed{Prop: "C10", Name: "facts-reinstalled-not-trailed", File: "solver/solver.go",
 			Old: "\t\ts.model[lit.Var()] = lvlToSignedLvl(lit, 1)\n\t\ts.trail = append(s.trail, lit)\n\t}\n\tfor _, lit := range lits {", New: "\t\ts.model[lit.Var()] = lvlToSignedLvl(lit, 1)\n\t}\n\tfor _, lit := range lits {", Expect: "R10.4"},
 		seed{Prop: "C10", Name: "facts-reinstalled-before-retraction", File: "solver/solver.go",
-			Old: "\ts.cleanupBindings(0)\n\ts.trail = s.trail[:0]\n\ts.assumptions = make([]bool, s.nbVars)\n\ts.status = Indet\n\tfor _, lit := range s.facts { // Unit clauses are not assumptions: they hold in every round\n\t\ts.model[lit.Var()] = lvlToSignedLvl(lit, 1)\n\t\ts.trail = append(s.trail, lit)\n\t}\n",
+			Old: "\ts.cleanupBindings(0)\n\ts.trail = s.trail[:0]\n\ts.assumptions = make([]bool, s.nbVars)\n\ts.status = Indet\n\tfor _, lit := range s.facts { // Unit clauses are not assumptions: they hold in every round\n\t\tif s.litStatus(lit) == Unsat { // Two unit clauses contradict each other\n\t\t\ts.status = Unsat\n\t\t\treturn s.status\n\t\t}\n\t\ts.model[lit.Var()] = lvlToSignedLvl(lit, 1)\n\t\ts.trail = append(s.trail, lit)\n\t}\n",
 			New: "\ts.trail = s.trail[:0]\n\tfor _, lit := range s.facts {\n\t\ts.model[lit.Var()] = lvlToSignedLvl(lit, 1)\n\t\ts.trail = append(s.trail, lit)\n\t}\n\ts.cleanupBindings(0)\n\ts.assumptions = make([]bool, s.nbVars)\n\ts.status = Indet\n", Expect: "R10.4"},
 		seed{Prop: "C10", Name: "facts-reinstalled-all-but-first", File: "solver/solver.go",
 			Old: "\tfor _, lit := range s.facts { // Unit clauses are not assumptions: they hold in every round\n", New: "\tfor _, lit := range s.facts[1:] {\n", Expect: "R10.4", Note: "panics on an empty list, which the tests never exercise... they do: kept as a variant of the loop shape only"},
@@ -224,8 +224,9 @@ func init() {
 		seed{Prop: "C10", Name: "appended-units-not-recorded", File: "solver/solver.go",
 			Old: "\t\ts.facts = append(s.facts, unit)\n", New: "", Expect: "R10.5"},
 		seed{Prop: "C10", Name: "appended-units-recorded-only-without-conflict", File: "solver/solver.go",
-			Old: "\t\ts.facts = append(s.facts, unit)\n\t\ts.model[unit.Var()] = lvlToSignedLvl(unit, 1)\n\t\tif s.unifyLiteral(unit, 1) != nil {\n\t\t\ts.status = Unsat\n\t\t\treturn\n\t\t}\n",
-			New: "\t\ts.model[unit.Var()] = lvlToSignedLvl(unit, 1)\n\t\tif s.unifyLiteral(unit, 1) != nil {\n\t\t\ts.status = Unsat\n\t\t\treturn\n\t\t}\n\t\ts.facts = append(s.facts, unit)\n", Expect: "R10.5", Note: "not benign: Assume resets the Unsat status and, without the record, the conflicting unit clause is gone"},
+			Old: "\t\ts.facts = append(s.facts, unit)\n\t\tswitch s.litStatus(unit) {\n", New: "\t\tswitch s.litStatus(unit) {\n",
+			More: []edit{{File: "solver/solver.go", Old: "\t\t\t\ts.status = Unsat\n\t\t\t\treturn\n\t\t\t}\n\t\t}\n\t\ts.rebuildOrderHeap()\n", New: "\t\t\t\ts.status = Unsat\n\t\t\t\treturn\n\t\t\t}\n\t\t}\n\t\ts.facts = append(s.facts, unit)\n\t\ts.rebuildOrderHeap()\n"}},
+			Expect: "R10.5", Note: "not benign: Assume resets the Unsat status and, without the record, the conflicting unit clause is gone"},
 		seed{Prop: "C10", Name: "unsat-without-refutation", File: "solver/solver.go",
 			Old: "\t\tif s.litStatus(lit) == Unsat { // lit contradicts a fact or a previous assumption\n", New: "\t\tif s.litStatus(lit) != Indet {\n", Expect: "R10.2,R10.3"},
 		seed{Prop: "C10", Name: "benign-units-recorded-one-by-one", File: "solver/solver.go",
